@@ -232,6 +232,47 @@ def judge(src: str, NAMES=NAMES) -> Tuple[str, Optional[Tuple[str, str]]]:
     return outcome, None
 
 
+_FACTORY: Dict[str, Any] = {}
+
+
+def judge_factory(src: str) -> Optional[Tuple[str, str]]:
+    """The same expression as the value of a swept parameter through the public sweep factory (the path YAML configurations take):
+    what the reference whitelist refuses must not be accepted there either, and nothing may run while it is being compiled."""
+    if not _FACTORY:
+        import verif_lib
+
+        verif_lib.register()
+        from semantiva.data_processors.parametric_sweep_factory import ParametricSweepFactory, SequenceSpec
+        from semantiva.examples.test_utils import FloatDataCollection
+        from verif_lib import components as VC
+
+        _FACTORY.update(f=ParametricSweepFactory, seq=SequenceSpec, coll=FloatDataCollection, el=VC.VSrc)
+    try:
+        tree = ast.parse(src, mode="eval")
+    except SyntaxError:
+        return None
+    reason = SG.why_unsafe(tree, NAMES)
+    if reason is None:
+        return None
+    ensure_hook()
+    del _AUDIT[:]
+    _AUDIT_ON[0] = True
+    accepted = True
+    try:
+        try:
+            _FACTORY["f"].create(element=_FACTORY["el"], element_kind="DataSource", collection_output=_FACTORY["coll"],
+                                 vars={"t": _FACTORY["seq"]([1.0]), "u": _FACTORY["seq"]([2.0])}, parametric_expressions={"value": src})
+        except BaseException:  # noqa: BLE001 - any refusal counts
+            accepted = False
+    finally:
+        _AUDIT_ON[0] = False
+    if accepted:
+        return ("unsafe-accepted-through-sweep-factory", f"{src!r} ({reason}) is accepted as a swept parameter expression by ParametricSweepFactory.create")
+    if _AUDIT:
+        return ("side-effect-during-compile|sweep-factory", f"{src!r}: audit events {sorted(set(_AUDIT))} while the factory compiled it")
+    return None
+
+
 def _worker(chunk):
     out = {"n": 0, "accepted": 0, "rejected": 0, "other": 0, "viol": [], "by_label": {}}
     for item in chunk:
@@ -242,6 +283,8 @@ def _worker(chunk):
                 v = (v[0] + "|variables=" + item[2], f"declared variables {sorted(NAMESETS[item[2]])}: {v[1]}")
         else:
             o, v = judge(src)
+            if v is None:
+                v = judge_factory(src)
         out["n"] += 1
         out["accepted" if o == "accepted" else "rejected" if o == "rejected" else "other"] += 1
         bl = out["by_label"].setdefault(label.split(".")[0], [0, 0])
@@ -603,4 +646,6 @@ def replay(case) -> List[Violation]:
         _, v = yaml_slice()
         return [x for x in v if x.case.get("expr") == case["expr"]]
     o, v = judge(case["expr"], NAMESETS[case["names"]]) if case.get("names") else judge(case["expr"])
+    if v is None and not case.get("names"):
+        v = judge_factory(case["expr"])
     return [Violation(v[0] + (("|variables=" + case["names"]) if case.get("names") else ""), v[1], case)] if v else []
